@@ -258,6 +258,8 @@ pub fn run(ctx: &mut Ctx) {
     ctx.run_prop("selections", n, || strategy(12), oracle);
     // larger populations (sorting, grouping and sampling code behaves differently beyond a few dozen elements)
     ctx.run_prop("selections_larger_populations", n / 6, || strategy(90), oracle);
+    // coverage-guided search over the same strategies and oracles (thorough tier; see ptfuzz.rs)
+    crate::ptfuzz::thorough(ctx, &[("c06", 16, 1_500_000), ("c06L", 16, 200_000)]);
 }
 
 pub fn replay(ctx: &mut Ctx, sub: &str, case: &Value) {
